@@ -29,6 +29,9 @@ type C16Case struct {
 	// LSess: the backend's sessions ALSO implement LMTPSession although the server speaks SMTP (a backend shared by an
 	// SMTP and an LMTP listener): it is the server's mode that decides, one reply per message
 	LSess bool `json:"lmtp_session_backend,omitempty"`
+	// Slow: the server has WriteTimeout 10 s (ReadTimeout 30 min) and the sender lets 40 virtual seconds pass before
+	// every Write: the transfer outlasts the write timeout many times over, the verdict must still arrive
+	Slow bool `json:"slow,omitempty"`
 }
 
 // envelopes: characters that mean something to fmt, to the path grammar or to xtext must arrive as given
@@ -50,6 +53,10 @@ func evalC16(c C16Case) *h.Finding {
 		desc += " (backend sessions implement LMTPSession too)"
 	}
 	cfg := h.Config{LMTP: c.LMTP, MaxMessageBytes: c.Limit}
+	if c.Slow {
+		cfg.ReadTO, cfg.WriteTO = 30*time.Minute, 10*time.Second
+		desc += " (slow sender: 40 s before every Write, server WriteTimeout 10 s)"
+	}
 	be := &h.Backend{LMTPSess: c.LSess}
 	want := ref.DotStuffNormalize(c.Body)
 	over := c.Limit > 0 && int64(len(want)) > c.Limit
@@ -87,6 +94,9 @@ func evalC16(c C16Case) *h.Finding {
 				parts = h.SplitAt(c.Body, c.Cuts...)
 			}
 			for _, p := range parts {
+				if c.Slow {
+					time.Sleep(40 * time.Second)
+				}
 				if n, err := w.Write(p); err != nil || n != len(p) {
 					f = h.F("c16-write", "%s: Write(%q) = %d, %v", desc, p, n, err)
 					return
@@ -423,6 +433,24 @@ func C16(tier string) int {
 					c.Show = fmt.Sprintf("4 lines with a line end at octet %d", 4095+shift)
 					run.Violate("c16", c, f, func() *h.Finding { return evalC16(c) })
 					run.Outcome("violation:" + f.Sig)
+				}
+			}
+		}
+	}
+	// a slow sender against a server with a write timeout: the transfer takes many times WriteTimeout, the verdict
+	// for the message arrives all the same (a write deadline belongs to one write, not to the command)
+	for _, body := range []string{"one line\r\n", "a\r\n.b\r\n..\r\nc", "x\ny\n.\nz\r\n"} {
+		for _, lmtp := range []bool{false, true} {
+			for _, rej := range []bool{false, true} {
+				for _, cuts := range [][]int{nil, {-1}, {3}} {
+					c := C16Case{LMTP: lmtp, Body: []byte(body), Cuts: cuts, Reject: rej, Env: 0, Slow: true}
+					f := evalC16(c)
+					run.Eval(true)
+					if f != nil {
+						c.Show = fmt.Sprintf("%q", body)
+						run.Violate("c16", c, f, func() *h.Finding { return evalC16(c) })
+						run.Outcome("violation:" + f.Sig)
+					}
 				}
 			}
 		}
